@@ -47,6 +47,10 @@ def ack_late(ctx):
                 if not is_awaited(a, bb):
                     why = "the reply future is never awaited"
                     continue
+                extra = conditions_within(dominating_conditions(a, bb, R), [(cond_is_insert_result("requesters"), True), (desc_is_field_read("executed"), True), (cond_is_empty("unavailable_dependencies"), True)])
+                if extra:
+                    why = "the reply depends on a further condition: " + fmt_conds(extra)
+                    continue
                 good.append((bb, idiom))
             ctx.check(bool(good), f"{lab}/Requested.{k}", [site(a, g[0]) for g in good] or [site(a, regs[0][0])],
                       f"the handler registers the requester but never answers it when the target is already done: {why}", props=props,
@@ -410,6 +414,10 @@ def request_deps(ctx):
             calls = calls_to_role(r, a, req_fns, R)
             got = set()
             for bb, t in calls:
+                extra = conditions_within(dominating_conditions(a, bb, R), [(cond_is_insert_result("requesters"), True), (cond_len_eq_one("requesters"), True)])
+                if extra:
+                    ctx.bad(f"{lab}/Requested.{k}/guard@{bb}", [site(a, bb)], "the dependencies are requested only under a further condition (" + fmt_conds(extra) + "): with it false they are never requested and the target waits forever")
+                    continue
                 if is_awaited(a, bb):
                     got |= kind_of_operand(a, t["args"][1]) if len(t["args"]) > 1 else set()
             if kinds:
@@ -432,3 +440,50 @@ def request_deps(ctx):
         kinds = atom_aggs(kat, "ExecutionKind")
         ctx.check({"Build", "Service"} <= kinds, f"root-request/{short(b.name)}", [site(b, bb)],
                   f"root targets are requested for {sorted(kinds)} only")
+
+
+@rule("C04.START-LIVE", ["C04", "C06"], """a start site runs whenever the readiness predicate holds (and no build is in flight): no further condition guards it, otherwise a ready
+      target may never start and its requesters wait forever""", "K1", floor=2)
+def start_live(ctx):
+    from rules_c01 import start_sites
+    r = ctx.r
+    names = {b.name for b in r.readiness_predicates()}
+    for a in r.actors():
+        if not r.actor_kinds(a):
+            continue
+        for (bb, t, what) in start_sites(r, a):
+            conds = dominating_conditions(a, bb)
+            extra = conditions_within(conds, [(lambda d: d[0] == "call" and d[1] in names, True), (lambda d: d[0] == "call" and d[1].endswith("::is_none"), True), (lambda d: d[0] == "call" and d[1].endswith("::is_some"), False)])
+            ctx.check(not extra, f"{r.actor_label(a)}/{short(callee_base(t))}", [site(a, bb)], "a start site is guarded by a condition beyond readiness / not-in-flight: " + fmt_conds(extra))
+
+
+@rule("C04.SUCCESS-SETS-EXECUTED", ["C04"], """every successful outcome (skipped, completed, service started) goes through the success notifier that records the target as executed: the
+      late-requester reply is guarded by that flag, so a success that leaves it unset loses every requester that registers afterwards""", "K1", floor=3)
+def success_sets_executed(ctx):
+    from rules_exit import result_arm_regions
+    r = ctx.r
+    # executed-setters: helper methods writing `executed` from a non-constant (executed = !to_execute)
+    setters = []
+    for (wb, bb, st) in r.field_writes("executed"):
+        kind, v = r.written_value(wb, st, "executed")
+        isconst = (kind == "op" and v["k"] == "const") or (kind == "rv" and v["k"] == "use" and v["op"]["k"] == "const")
+        if not isconst and wb in r.helper_methods() and wb not in setters:
+            setters.append(wb)
+    ctx.need(setters, "helper method recording `executed`")
+    for a in r.actors():
+        if not r.actor_kinds(a):
+            continue
+        lab = r.actor_label(a)
+        for (Rerr, Rok, what) in result_arm_regions(ctx, a):
+            # sub-arms of the Ok payload (IncrementalRunResult variants); Cancelled is not a success
+            subs = {}
+            for v in ("Skipped", "Completed"):
+                R = variant_region(a, "IncrementalRunResult", v, within=Rok | {min(Rok)} if Rok else None) if what == "build-result" else set()
+                if R:
+                    subs[v] = R
+            if not subs:
+                subs = {"Ok": Rok}
+            for v, R in subs.items():
+                calls = [c for c in calls_to_role(r, a, setters, R) if is_awaited(a, c[0]) and _must_pass(a, R, c[0])]
+                ctx.check(bool(calls), f"{lab}/{what}.{v}", [site(a, c[0]) for c in calls] or [a.loc(min(R)) if R else a.loc()],
+                          f"the `{v}` outcome does not go through the notifier that records the target as executed: a requester registering afterwards is never acknowledged")
